@@ -678,4 +678,7 @@ void verif_corpus(std::vector<std::vector<uint8_t>> &out) {
     auto directed = [&](std::initializer_list<uint32_t> us) { std::vector<uint8_t> v{0xFF}; for (uint32_t u : us) for (int b = 0; b < 4; b++) v.push_back((uint8_t)(u >> (8 * b))); out.push_back(v); };
     directed({0x41, 0xE9, 0x20AC, 0x1F600, 0x10FFFF, 0xD7FF, 0xE000, 0xFFFF, 0x10000, 0x7F, 0x80, 0x7FF, 0x800});
     out.push_back({0xFE, 0x00, 0x7F, 0x80, 0xFF, 0xE9});
+    out.push_back({0xFD, 0, 0, 0, 0, 0, 0});                          // long text: 1024 UTF-8 units of U+00E9
+    out.push_back({0xFD, 1, 0, 3, 210, 1, 0});                        // 320 Ki + 1 UTF-16 units of U+1F600
+    for (uint8_t i = 0; i < 16; i++) out.push_back({0xFC, i});        // compiled-in literals
 }
